@@ -470,7 +470,12 @@ def run_tie(prop, spec, tier, seed):
     rnd = [random_case(rng, lang, ctry) for _ in range(nrand)]
     rnd = [s for s in rnd if b"\0" not in s]
     small = small_scope_cases(5 if tier == "quick" else 7)
-    cases = corpus + adv + small + rnd + ex
+    # every two-byte language part whose first byte is a lower-case letter and whose second byte is ANY byte (upper case, digits,
+    # punctuation, control and high bytes), with two known countries: an index computed from the bytes of a short code must not alias
+    two = [bytes([b0, b1]) + b"_" + c for b0 in range(ord("a"), ord("z") + 1) for b1 in range(1, 256) if b1 not in (ord("_"), ord("."))
+           for c in (b"EE", b"GB")]
+    two += [bytes([b1, b0]) + b"_GB" for b0 in range(ord("a"), ord("z") + 1) for b1 in range(1, 256) if b1 not in (ord("_"), ord(".")) and not (97 <= b1 <= 122)]
+    cases = corpus + adv + small + two + rnd + ex
     lines = [line_of(s) for s in cases]
     exp = [show(orc.get(s)) for s in cases]
 
